@@ -116,8 +116,9 @@ SPECS["C25"] = {
               {"engine": "m", "module": "c25"}, {"engine": "m", "module": "c25rq"}],
     "functions": ["dicom_ul::pdu::writer::write_pdu (+ write_chunk_u32)", "dicom_ul::pdu::reader::read_pdu"],
     "bounds": "A-RELEASE-RQ/RP, P-DATA-TF with one PDV of 2 symbolic bytes (context id, type, last flag symbolic), unknown PDU type; "
-              "strict prefixes of concrete length per instance; item length fields: write_chunk_u16/u32 for all content lengths <= 2^20 / 2^33 (Engine M)",
-    "outside": "strict mode (read_pdu with a symbolic length field: no verdict in 1500 s), A-ABORT and A-ASSOCIATE-RJ (bytes::Bytes pointer tagging defeats CBMC's pointer model: spurious failures that do not replay), A-ASSOCIATE-RQ/AC with their variable items (string building in CBMC: not yet built), items longer than 65535 bytes (length arithmetic planned on Engine M), more than one PDV",
+              "strict prefixes of concrete length per instance; item length fields: write_chunk_u16/u32 for all content lengths <= 2^20 / 2^33 (Engine M); "
+              "A-ASSOCIATE-RQ (1 proposed context, 2 transfer syntaxes) and -AC (2 results) with the 7 user sub-item kinds, UID lengths 1..3 per instance, symbolic digits / bytes / flags (Engine M, write side)",
+    "outside": "strict mode (read_pdu with a symbolic length field: no verdict in 1500 s), A-ABORT and A-ASSOCIATE-RJ (bytes::Bytes pointer tagging defeats CBMC's pointer model: spurious failures that do not replay), reading A-ASSOCIATE-RQ/AC back (string building in CBMC), UIDs longer than 3 characters and other item multiplicities (the shape is concrete per instance), more than one PDV",
     "assumptions": ["tracing macros stubbed to disabled", "oracle: PS3.8 9.3 framing checked on the written bytes in kani/ul/src/c25.rs"],
 }
 
